@@ -847,9 +847,19 @@ struct Exec {
     d.s('O');
     for (int c : md.order) d.P(c);
     d.s('c');
-    if (!RU || IDX == IDEN) for (int c : md.order) d.I(md.cid[c]);
-    d.s('r');
-    for (long r : md.rid) d.I(r);
+    if (key_level >= 1) {
+      if (!RU || IDX == IDEN) for (int c : md.order) d.I(md.cid[c]);
+      d.s('r');
+      for (long r : md.rid) d.I(r);
+    } else {   // semantic level: only whether the identifiers still increase along the filtration
+      bool inc = true, eqpos = true;
+      if (!RU || IDX == IDEN)
+        for (size_t p = 0; p < md.order.size(); ++p) {
+          if (p && md.cid[md.order[p - 1]] > md.cid[md.order[p]]) inc = false;
+          if (md.cid[md.order[p]] != (long)p) eqpos = false;
+        }
+      d.P(inc); d.P(eqpos && !explicit_ids);
+    }
     d.s('x');
     d.P(md.removed && !explicit_ids && RU && IDX == IDEN);
     auto& co = core();
@@ -879,7 +889,18 @@ struct Exec {
       for (auto x : co.reducedMatrixR_.dimensions_) d.P(x);
       if constexpr (IDX == IDEN) {
         d.s('o'); d.P(m->matrix_.nextIndex_);
-        for_sorted(*m->matrix_.idToIndex_, [&](long k, long v) { if (v != (long)NUL) { d.I(k); d.P(v); } });
+        if (key_level >= 1) {
+          for_sorted(*m->matrix_.idToIndex_, [&](long k, long v) { if (v != (long)NUL) { d.I(k); d.P(v); } });
+        } else {
+          long cnt = 0, wrong = 0;
+          for_sorted(*m->matrix_.idToIndex_, [&](long k, long v) {
+            if (v == (long)NUL) return;
+            ++cnt;
+            int c = md.cell_with_cid(k);
+            if (c < 0 || md.pos_of(c) != v) ++wrong;
+          });
+          d.P(cnt); d.P(wrong);
+        }
       }
     } else {
       // chains, pivots and pairing expressed in positions; which container slot holds which chain is summarised
